@@ -79,8 +79,8 @@ arch:
     area: 0
     tensors: {keep: ~Intermediates, may_keep: All}
     actions:
-    - {name: read, energy: 8, throughput: 4}
-    - {name: write, energy: 8, throughput: 4}
+    - {name: read, energy: 8, throughput: {{MMThr}}}
+    - {name: write, energy: 8, throughput: {{MMThr}}}
 
   - !Memory
     name: GlobalBuffer
@@ -89,8 +89,8 @@ arch:
     area: 0
     tensors: {keep: ~MainMemory, may_keep: All}
     actions:
-    - {name: read, energy: 2, throughput: 8}
-    - {name: write, energy: 2, throughput: 8}
+    - {name: read, energy: 2, throughput: {{GBThr}}}
+    - {name: write, energy: 2, throughput: {{GBThr}}}
 
   - !Container
     name: PEArray
@@ -105,8 +105,8 @@ arch:
     area: 0
     tensors: {keep: ~GlobalBuffer, may_keep: All}
     actions:
-    - {name: read, energy: 1, throughput: inf}
-    - {name: write, energy: 1, throughput: inf}
+    - {name: read, energy: 1, throughput: {{RFThr}}}
+    - {name: write, energy: 1, throughput: {{RFThr}}}
 
   - !Compute
     name: MAC
@@ -124,9 +124,11 @@ def spec_family(quick: bool):
         S.append({"name": f"simple-M{M}-KN{KN}-imp{int(imp)}-gb{gb}-thr{thr}", "arch": "simple", "M": M, "KN": KN,
                   "imperfect": imp, "params": {"GlobalBufferSize": gb, "GlobalBufferThroughput": thr}})
 
-    def pe(M, KN, imp, gb, rf, fan):
-        S.append({"name": f"pe-M{M}-KN{KN}-imp{int(imp)}-gb{gb}-rf{rf}-x{fan}", "arch": "pe", "M": M, "KN": KN,
-                  "imperfect": imp, "params": {"GlobalBufferSize": gb, "RegFileSize": rf, "Fanout": fan}})
+    def pe(M, KN, imp, gb=4096, rf=512, fan=4, thr=(4, 8, "inf")):
+        S.append({"name": f"pe-M{M}-KN{KN}-imp{int(imp)}-gb{gb}-rf{rf}-x{fan}-thr{'_'.join(map(str, thr))}",
+                  "arch": "pe", "M": M, "KN": KN, "imperfect": imp,
+                  "params": {"GlobalBufferSize": gb, "RegFileSize": rf, "Fanout": fan,
+                             "MMThr": thr[0], "GBThr": thr[1], "RFThr": thr[2]}})
 
     for imp in (False, True):
         simple(2, 2, imp)
@@ -134,8 +136,20 @@ def spec_family(quick: bool):
         simple(6, 4, imp, gb=64, thr=2)
         simple(12, 6, imp, gb=128, thr=2)
         simple(5, 4, imp, gb=64, thr=2)
-        pe(4, 4, imp, 256, 64, 4)
-        pe(12, 12, imp, 4096, 512, 4)
+        # >= 1000 partial tile shapes are needed before the mapper derives Pareto goals mid-enumeration
+        # (the only path that hands energy / latency terms to the comparator): bounds 12 / 10, 3 levels
+        pe(12, 12, imp)
+        pe(12, 12, imp, thr=(1, 1, 1))
+    pe(4, 4, False, gb=256, rf=64)
+    pe(10, 10, True, thr=(1, 1, 1))
+    if not quick:
+        for imp in (False, True):
+            pe(12, 6, imp, thr=(0.5, 2, 4))
+            pe(6, 12, imp, fan=2, thr=(2, 1, "inf"))
+            pe(10, 10, imp)
+            pe(12, 12, imp, fan=2, thr=(1, 4, 2))
+        pe(6, 6, True, thr=(1, 1, 1))
+        pe(7, 7, True, thr=(1, 1, 1))
     return S
 
 
@@ -164,6 +178,14 @@ def build_jobs(cfg, scratch):
     return [j for v in jobs.values() for js in v.values() for j in js]
 
 
+def _clear_caches(mts):
+    for v in vars(mts).values():
+        cc = getattr(v, "cache_clear", None)
+        if callable(cc):
+            cc()
+    mts._is_connected_cache.clear()
+
+
 def _restrict(bounds, syms):
     return tuple(sorted(((s, int(lo), int(hi)) for (s, lo, hi) in bounds if s in syms), key=lambda t: str(t[0])))
 
@@ -182,6 +204,9 @@ def harvest_shard(item):
     orig_g, orig_d = mts.geq_leq_zero, mts.diff_geq_leq_zero
     if getattr(orig_g, "_c09_spy", False):  # never stack spies
         orig_g, orig_d = orig_g._c09_orig, orig_d._c09_orig
+    # The callers of the comparator are lru_cached themselves: start every shard from
+    # cold caches so that the captured set does not depend on what ran before.
+    _clear_caches(mts)
     n_calls = [0]
 
     def note(kind, f, s, bounds, flag, verdict):
@@ -256,8 +281,8 @@ def kinds_of(f) -> frozenset:
         if isinstance(n, _LEAF):
             continue
         if isinstance(n, sympy.Pow):
-            e = n.args[1]
-            ks.add("Recip" if (e.is_Integer and e < 0) else ("PowInt" if e.is_Integer else "PowOther"))
+            e = n.args[1]  # a positive integer power is a repeated product
+            ks.add("Recip" if (e.is_Integer and e < 0) else ("Mul" if e.is_Integer else "PowOther"))
         else:
             ks.add(type(n).__name__)
     return frozenset(ks)
@@ -276,8 +301,12 @@ def _ceil_tag(c):
 def descriptors(f) -> frozenset:
     """Names of the step-constructor patterns occurring in f (used for families)."""
     d = set()
-    for n in sympy.preorder_traversal(f):
-        if isinstance(n, sympy.ceiling):
+    it = sympy.preorder_traversal(f)
+    for n in it:
+        if isinstance(n, (sympy.Derivative, sympy.Subs)):
+            d.add("Derivative")
+            it.skip()  # do not describe the dummy ceiling inside an unevaluated derivative
+        elif isinstance(n, sympy.ceiling):
             d.add(_ceil_tag(n))
         elif isinstance(n, sympy.floor):
             d.add("floor")
@@ -287,8 +316,6 @@ def descriptors(f) -> frozenset:
             d.add("Min")
         elif isinstance(n, sympy.Heaviside):
             d.add("Heaviside")
-        elif isinstance(n, (sympy.Derivative, sympy.Subs)):
-            d.add("Derivative")
         elif isinstance(n, sympy.Mul):
             for a in n.args:
                 base = a.args[0] if isinstance(a, sympy.Pow) else a
@@ -641,10 +668,11 @@ def run(ctx):
     t0 = time.time()
     mts = _mts()  # import accelforge once in the parent
     a, b = _symbols()
-    mts.geq_leq_zero(a - 1, ((a, 1, 2),))
+    fam = spec_family(q)
+    # warm-up in the parent (yaml loader, numba kernels, sympy caches) so that forked workers inherit it
+    harvest_shard((fam[0], 0, 1, ctx.scratch))
 
     # ---------------- (a) harvest ----------------
-    fam = spec_family(q)
     nchunks = 4
     items = [(cfg, c, nchunks, ctx.scratch) for cfg in fam for c in range(nchunks)]
     k = ctx.seed % len(items)
